@@ -141,4 +141,15 @@ def panicMidstream : List Op → Bool
   | .flush :: os => os.any isPanicOp
   | _ :: os => panicMidstream os
 
+/-- a middleware in front of the compression middleware has committed the response (final status, body bytes, a flush)
+    or panicked before the chain went on: class of the open finding K15r -/
+def preCommits (pre : List Op) : Bool :=
+  pre.any fun o => match o with
+    | .writeHeader c => !informational c
+    | .write _ => true
+    | .copy _ => true
+    | .flush => true
+    | .panic => true
+    | _ => false
+
 end Rivaas.CompressSpec
